@@ -1,5 +1,17 @@
 # -*- coding: utf-8 -*-
-"""C15 - text functions satisfy the string algebra they document"""
+"""C15 - text functions satisfy the string algebra they document
+
+case kinds (all but codechar_range are also compared with the Lean model; `fn` and the cases the oracle skips only with it):
+  slice           LEFT / RIGHT / MID / LEN of a string variable with a count n and a start st, MID(s,1,n) = LEFT(s,n),
+                  LEFT(s,n)&RIGHT(s,LEN(s)-n) = s
+  lenconcat       LEN(a&b) = LEN(a)+LEN(b)
+  case            UPPER / LOWER / PROPER / TRIM / CLEAN and their squares
+  codechar        CODE(CHAR(n)) = n through a formula
+  codechar_range  CODE(CHAR(n)) = n by direct calls over a range of code points (thorough, oracle only)
+  join            CONCATENATE / CONCAT / TEXTJOIN / & over item lists with blanks, nested lists, integers
+  subst           SUBSTITUTE with and without an instance number
+  fn              direct calls of the registered functions with arguments of every kind (model comparison only)
+"""
 import string
 
 from .. import common, fx
@@ -14,31 +26,78 @@ FUNCTIONS = ['hotxlfp.formulas.text:CHAR', 'hotxlfp.formulas.text:CODE', 'hotxlf
              'hotxlfp.formulas.text:MID', 'hotxlfp.formulas.text:TRIM', 'hotxlfp.formulas.utils:iflatten',
              'hotxlfp.formulas.utils:parse_number', 'hotxlfp.helper.number:to_number',
              'hotxlfp.grammarparser.parser:FormulaParser.p_expression_arithmetic_operator']
-RULE = ('seeded strings of length 0..60 (short lengths and 0/1/60 favoured) over ASCII letters, digits, punctuation, spaces '
-        '(with runs), control characters (0..31, 127), accented Latin letters (U+00C0..U+024F whose case mappings are '
-        'one-to-one and agree with case folding) and CJK/kana letters, handed to the formulas as VARIABLES. '
-        'slice: LEFT/RIGHT/MID/LEN and the three identities for every count 0..len+5 and for negative counts (quick: all '
-        'counts for a subset of the strings, seeded counts for the others); case: UPPER/LOWER/PROPER/TRIM/CLEAN and their '
-        'squares; codechar: CODE(CHAR(n)) on boundaries and seeded code points (thorough: every scalar value 1..0x10FFFF, '
-        'surrogates excluded, in ranges called directly); join: CONCATENATE/CONCAT/TEXTJOIN/& on item lists with blanks, '
-        'nested arrays, integers; subst: SUBSTITUTE with old texts planted in the string, new text possibly empty, with and '
-        'without an instance number (self-overlapping old texts and empty ones: model comparison only); fn: direct calls with '
-        'float/text/logical/blank/error arguments (model comparison only). Non-trivial = the function changes its input or '
-        'the identity has two non-empty sides.')
+RULE = ('text: seeded strings of length 0..60 (6 % empty, 6 % one character, 4 % of length 60, 44 % of length 2..11) drawn with '
+        'one of 7 weight profiles from ASCII letters, digits, the 32 punctuation characters, spaces (40 % of them as runs of '
+        '1..3), the 33 control characters (0..31, 127), 393 accented Latin letters (U+00C0..U+024F whose upper/lower/title '
+        'mappings are one-to-one and agree with case folding) and 131 CJK/kana/Hangul characters (2 outside the BMP), handed to '
+        'the formulas as VARIABLES of one shared hotxlfp.Parser. Counts below: quick (thorough), each multiplied by scale. '
+        'slice [LEFT(s,n), RIGHT(s,n), MID(s,st,n), MID(s,1,n), LEFT(s,n)&RIGHT(s,LEN(s)-n), LEN(s), LEFT(s), RIGHT(s)]: 9 fixed; '
+        '80 (3000) strings with every count 0..len+5 and -1, -2, -len, -len-1, -1000, st seeded in 1..len+2; 1500 (12000) '
+        'strings with up to 3 counts (seeded in 0..len+5, one of 0/1/len-1/len/len+1, a negative one down to -len-2) and st '
+        'among 1, 2, len, len+1, len+2, seeded, 0, -1. '
+        'lenconcat [LEN(a&b), LEN(a)+LEN(b), a&b, LEN(a), LEN(b)]: 500 (8000) + 1 fixed, each side blank in 5 %. '
+        'case [UPPER/LOWER/PROPER/TRIM/CLEAN and their squares]: 1500 (30000) + 8 fixed. '
+        'codechar [CODE(CHAR(n)), CHAR(n)]: 19 boundaries (1..0x10FFFF; 0: model comparison only) + 300 (20000) seeded scalar '
+        'values, a third each below 0x300, below 0xD800, in 0xE000..0x10FFFF. codechar_range (thorough only, oracle only): '
+        'CODE(CHAR(n)) called directly for every scalar value 1..0x10FFFF, surrogates skipped, in 68 ranges of 0x4000. '
+        'join [CONCATENATE, CONCAT, TEXTJOIN(d,TRUE,..), TEXTJOIN(d,FALSE,..), xa&xb]: 1000 (20000) + 2 fixed lists of 0..5 items: '
+        'blank 20 %, nested list of 0..3 items (depth <= 2) 20 %, empty string, text of length <= 6, in 30 % of the lists also '
+        'integers from a pool of 8 (negative, 10^6, a 20-digit one); delimiter "," ", " "" " " "--" or seeded of length <= 3. '
+        'subst [SUBSTITUTE(s,o,w) or SUBSTITUTE(s,o,w,k)]: 2500 (50000) + 4 fixed; old text of 1..5 characters planted 0..6 times '
+        'between pieces of length <= 8, near misses (old text without its last / first character) next to them, string cut at '
+        '60 and empty in 8 %; new text empty 30 %, old+old 10 %, reversed old 10 %, else seeded of length <= 6; instance number '
+        'in 55 % (1..4, the planted count +0/+1/+2, 7, 50); 15 % self-overlapping old texts and 4 % empty ones (about 18 % of the '
+        'cases: model comparison only). '
+        'fn (model comparison only) - direct calls of the registered functions with Python values: 159 fixed argument lists '
+        '(floats, numeric text, logicals, blanks, #N/A, lists, missing and surplus arguments, 10^30), CHAR of 6 out-of-range / '
+        'surrogate numbers, 1500 (12000) seeded calls of 19 names (LEFTB, RIGHTB, MIDB, LENB, CONCAT included) with an argument '
+        'count the signature admits (at most 5) from a pool of 20 values (5 texts, 5 integers, 4 floats, TRUE, FALSE, blank, '
+        '#N/A, ["a", blank], []). '
+        'Every kind but codechar_range is compared with the model, formula by formula (result/error records, exact in type; the '
+        'parse trees are ignored; a model answer "no opinion" accepts anything). The oracle judges neither fn, MID(s,st,n) with '
+        'st < 1, CHAR(0), subst with an empty or self-overlapping old text, TEXTJOIN over lists holding integers, nor the '
+        'auxiliary formulas LEN(s), LEFT(s), RIGHT(s), a&b, LEN(a), LEN(b), CHAR(n), xa&xb. Quick at scale 1: about 14300 cases '
+        '(slice about 6800, subst 2504, fn 1665, case 1508, join 1002, lenconcat 501, codechar 319). Non-trivial = slice: '
+        'len(s) >= 2; lenconcat: both sides non-empty; case: some function changes the string; codechar: n > 127; '
+        'codechar_range: always (counts once per range); join: >= 2 non-blank items and a blank or a nested list; subst: '
+        'non-empty old text occurring in the string; fn: at least one argument. When a proof or the correspondence broke: the '
+        'whole generator again at scale 6 on the same tier without the fn cases, oracle only, up to the first failure. No time '
+        'or step budget.')
 TRUSTED = ['Python str methods (slicing, replace, join, upper/lower/title, strip), re.sub, chr/ord: modelled on List Char; '
            'case mapping modelled for ASCII only (CaseMap.ascii), non-ASCII case mapping is checked by the oracle only',
-           'str() of floats, dates and lists is not modelled (the model answers "no opinion")']
+           'str() of integers, logicals and blanks is modelled; str() of floats, dates and lists is not (the model answers '
+           '"no opinion", which is never compared), nor are CHAR of a surrogate code point and SUBSTITUTE on lists / dates',
+           'the oracle is written with Python slicing, str.split/join/replace, str.casefold and ord on the same interpreter: '
+           'case folding of non-ASCII letters is the Unicode table of the running CPython',
+           'formula-level cases go through lexer, grammar, evaluator and set_variable of one hotxlfp.Parser shared by the whole '
+           'run (variables overwritten per case); an exception inside a function reaches the oracle as the #ERROR! record of '
+           'parse()',
+           'fn cases: any Python exception of a direct call counts as the error its message names, else #ERROR!, and must be the '
+           'error the model raises; a returned value must match the model value exactly in type (floats within 4 ulp)']
 ASSUMPTIONS = ['"leading/trailing/inner characters" are those Python slicing s[:n], s[len-n:], s[st-1:st-1+n] designates '
-               '(characters = Unicode code points)',
+               '(characters = Unicode code points); results are text (str), a count >= len gives the whole string, RIGHT(s,0) '
+               'is ""',
+               'a negative count gives #VALUE! (LEFT, RIGHT, MID with start >= 1); MID(s,1,n) and LEFT(s,n) must be the same '
+               'record for every n; LEFT(s,n)&RIGHT(s,LEN(s)-n) = s is required for 0 <= n <= len only',
+               'LEN(a&b) = LEN(a)+LEN(b) with both sides integers and no error, blank operands included; that LEN is the number '
+               'of code points is checked through the model and the LEFT&RIGHT identity only',
                '"change only letter case": the result equals the input up to Unicode case folding, position by position; on '
                'ASCII letters UPPER/LOWER/PROPER are also required to produce the documented case (PROPER: upper after a '
-               'non-letter, lower after a letter); letters whose case mapping changes the length or disagrees with case '
-               'folding (ß, ı, ŉ …) are outside the generated alphabet',
+               'non-letter, lower after a letter; after a non-ASCII character either case is accepted); ASCII non-letters stay '
+               'as they are; letters whose case mapping changes the length or disagrees with case folding (ß, ı, ŉ …) are '
+               'outside the generated alphabet',
+               'UPPER/LOWER/PROPER/TRIM/CLEAN give text without error and are idempotent (f(f(s)) is the same record as f(s))',
                '"surplus spaces" = leading, trailing and repeated U+0020; TRIM(s) must equal the space-separated words of s '
-               'joined by single spaces',
-               'a "blank" item is an empty cell (None); an empty string item is an item (TEXTJOIN(",",TRUE,"a","","b") = "a,,b")',
+               'joined by single spaces (tabs, line feeds and other white space are ordinary characters)',
+               'CLEAN removes exactly the code points 0..31; every other character stays, U+007F too',
+               'CODE(CHAR(n)) = n as an integer for every Unicode scalar value n >= 1; CHAR(0) is compared with the model only',
+               'a "blank" item is an empty cell (None); an empty string item is an item (TEXTJOIN(",",TRUE,"a","","b") = "a,,b"); '
+               'TEXTJOIN(d,FALSE,..) keeps a blank as an empty item; nested lists count as their items in order; CONCAT is '
+               'CONCATENATE',
                'numbers among the items of TEXTJOIN are outside the statement (the code answers #ERROR!): compared with the '
                'model only; integers among the items of CONCATENATE are rendered in decimal',
+               'SUBSTITUTE without instance number replaces every occurrence, left to right, without re-scanning the new text; '
+               'with instance number k >= 1 only the k-th occurrence, and nothing when there are fewer than k',
                'MID with start < 1 and SUBSTITUTE with an empty or self-overlapping old text are outside the statement: '
                'compared with the model only',
                'lone surrogates (0xD800..0xDFFF) are Python characters but not Unicode scalar values: excluded']
